@@ -294,4 +294,21 @@ def NG.subsAffine (g : NG) (subs : List AffSub) : NG :=
   let s := g.raw.subsAffineRaw (total newInp) (affineMatrix g.inputs newInp subs) (affineVector g.inputs subs)
   { inputs := newInp, rank := s.rank, w := s.w, P := s.P }
 
+/-! ### batch axes: `align_tensor` (tensor.py:554-598) as used by `align_gaussian` (312-318) -/
+
+/-- value of each name in a positional index -/
+def namedIndex (inp : List (String × Nat)) (idx : List Nat) (k : String) : Nat :=
+  match ((inp.map (·.1)).zip idx).lookup k with
+  | some v => v
+  | none => 0          -- an input the tensor does not have is broadcast (size-1 axis, index 0)
+
+/-- `align_tensor(new_inputs, Tensor(data, old_inputs), expand=True)`: the entry at a positional index of
+    the new layout is the old entry at the same NAMED point (permute, insert size-1 axes, expand). -/
+def alignBatch {α : Type} (new old : List (String × Nat)) (data : List Nat → α) : List Nat → α :=
+  fun idx => data (old.map fun p => namedIndex new idx p.1)
+
+/-- read a batched array at a named point -/
+def atNamed {α : Type} (inp : List (String × Nat)) (data : List Nat → α) (env : String → Nat) : α :=
+  data (inp.map fun p => env p.1)
+
 end FV.C12
